@@ -361,3 +361,70 @@ func SimpleFor(ics ICSet) *Pool {
 	}
 	return p
 }
+
+// Malform turns a well-formed pattern into one with exactly one documented
+// syntax error; the class is known by construction.
+func Malform(r *ref.R, p string) (string, string) {
+	pp, cls := ref.Parse(p, nil)
+	var toks []int
+	if cls == ref.SynOK {
+		for i, t := range pp.Toks {
+			if t.Kind != ref.KLit {
+				toks = append(toks, i)
+			}
+		}
+	}
+	if len(toks) == 0 {
+		// no parameter to break: append a broken one
+		switch r.Intn(3) {
+		case 0:
+			return p + "/{}", "empty-name"
+		case 1:
+			return p + "/{a}{b}", "adjacent"
+		default:
+			return p + "/{z:[}", "bad-regexp"
+		}
+	}
+	render := func(mod func(i int, t ref.Tok) string) string {
+		var b strings.Builder
+		for i, t := range pp.Toks {
+			if t.Kind == ref.KLit {
+				b.WriteString(t.Lit)
+			} else {
+				b.WriteString(mod(i, t))
+			}
+		}
+		return b.String()
+	}
+	target := ref.Pick(r, toks)
+	switch r.Intn(4) {
+	case 0: // the same name again later (after a literal), possibly with another rule or the '-' flag
+		dup := pp.Toks[target]
+		again := ref.Pick(r, []string{"{" + dup.Name + "}", "{-" + dup.Name + "}", "{" + dup.Name + ":\\d+}"})
+		return render(func(i int, t ref.Tok) string { return t.Text }) + ref.Pick(r, []string{"/", "/x/", "-", "."}) + again, "duplicate-name"
+	case 1: // name removed
+		return render(func(i int, t ref.Tok) string {
+			if i != target {
+				return t.Text
+			}
+			if t.Rule != "" {
+				return "{:" + t.Rule + "}"
+			}
+			return "{}"
+		}), "empty-name"
+	case 2: // a second parameter directly behind it
+		return render(func(i int, t ref.Tok) string {
+			if i != target {
+				return t.Text
+			}
+			return t.Text + ref.Pick(r, []string{"{zz}", "{zz:\\d+}", "{-zz}"})
+		}), "adjacent"
+	default: // rule replaced by an uncompilable regexp
+		return render(func(i int, t ref.Tok) string {
+			if i != target {
+				return t.Text
+			}
+			return "{" + t.Name + ":" + ref.Pick(r, []string{"[", "(", "*", "x**", "(?P<x"}) + "}"
+		}), "bad-regexp"
+	}
+}
